@@ -1,6 +1,8 @@
 import SurfModel.Quant
 import SurfProofs.Lemmas.QuantKD
 import SurfProofs.Lemmas.QuantTop
+import SurfProofs.Lemmas.QuantLossless
+import Mathlib.Data.List.Perm.Subperm
 /-!
 # C13 — colour quantisation: bounded palette, valid indices, exact nearest-colour search
 
@@ -84,5 +86,53 @@ theorem C13_indices (px : List RGB) (h w k : Nat) (dither : Bool) (pal : List RG
       obtain ⟨rfl, rfl⟩ := hq
       refine ⟨hlen, fun p hp => ?_⟩
       exact ⟨p.1, hall p hp, ⟨fun hd => (by cases hd), fun _ => rfl⟩⟩
+
+/-- the hypothesis `quantize … = .ok pal is` is met by every non-empty image when dithering is off
+    (here: 1×2 pixels, `k = 2`) -/
+example : ∃ pal is, quantize [⟨10, 20, 30⟩, ⟨200, 100, 0⟩] 1 2 2 false = .ok pal is := by
+  obtain ⟨pal, hq, _⟩ := C13_palette_bounds [⟨10, 20, 30⟩, ⟨200, 100, 0⟩] 1 2 2 false rfl (by simp) (by omega)
+  rcases hq with ⟨is, hq⟩ | ⟨hd, _⟩
+  · exact ⟨pal, is, hq⟩
+  · cases hd
+
+/-- Lossless case.  If the image has at most `k` distinct colours (every duplicate-free list of
+    colours occurring in it has at most `k` entries), is not subsampled (`h·w < 200·k`, sizes being
+    `usize`) and its components are bytes, then nothing is pruned: the palette lists exactly the
+    distinct colours of the image, once each, and the index image reproduces every pixel — without
+    dithering and with it (all error terms are zero). -/
+theorem C13_lossless (px : List RGB) (h w k : Nat) (dither : Bool)
+    (hne : px ≠ []) (hk : 1 ≤ k)
+    (hbytes : ∀ c ∈ px, c.r < 256 ∧ c.g < 256 ∧ c.b < 256)
+    (hfit : ∀ S : List RGB, S.Nodup → (∀ c ∈ S, c ∈ px) → S.length ≤ k)
+    (h64 : h * w < 2 ^ 64) (hsmall : h * w < 200 * k) :
+    ∃ pal is, quantize px h w k dither = .ok pal is ∧
+      pal.Nodup ∧ (∀ c, c ∈ pal ↔ c ∈ px) ∧
+      is.length = px.length ∧ ∀ p ∈ px.zip is, pal[p.2]? = some p.1 := by
+  obtain ⟨pal, hfi, hnd, hmem⟩ :=
+    SurfProofs.QuantLossless.fromImage_lossless px h w k hne hk hbytes hfit h64 hsmall
+  have hsub : ∀ q ∈ px, q ∈ pal := fun q hq => (hmem q).mpr hq
+  cases dither with
+  | false =>
+    obtain ⟨is, hq, hlen, hall⟩ := SurfProofs.QuantTop.quantizePlain_exact pal px hsub
+    exact ⟨pal, is, by simp only [quantize, hfi, hq]; rfl, hnd, hmem, hlen, hall⟩
+  | true =>
+    obtain ⟨is, hq, hlen, hall⟩ := SurfProofs.QuantTop.quantizeDither_exact pal px hsub
+    exact ⟨pal, is, by simp only [quantize, hfi, hq]; rfl, hnd, hmem, hlen, hall⟩
+
+/-- a 2×2 image with three distinct colours and `k = 3` meets the hypotheses -/
+example :
+    let px : List RGB := [⟨255, 0, 0⟩, ⟨0, 255, 0⟩, ⟨255, 0, 0⟩, ⟨1, 2, 3⟩]
+    px ≠ [] ∧ (∀ c ∈ px, c.r < 256 ∧ c.g < 256 ∧ c.b < 256) ∧
+      (∀ S : List RGB, S.Nodup → (∀ c ∈ S, c ∈ px) → S.length ≤ 3) ∧ 2 * 2 < 2 ^ 64 ∧ 2 * 2 < 200 * 3 := by
+  intro px
+  refine ⟨by simp [px], by simp [px], ?_, by norm_num, by norm_num⟩
+  intro S hS hsub
+  have hsub' : S ⊆ [⟨255, 0, 0⟩, ⟨0, 255, 0⟩, ⟨1, 2, 3⟩] := by
+    intro c hc
+    have := hsub c hc
+    simp only [px, List.mem_cons, List.not_mem_nil, or_false] at this
+    rcases this with rfl | rfl | rfl | rfl <;> simp
+  have := (hS.subperm hsub').length_le
+  simpa using this
 
 end SurfProofs.C13
